@@ -19,6 +19,7 @@ func init() { register("C19", "exploration", runC19) }
 var fileMu [64]sync.Mutex
 
 var c19Special = []string{
+	"v1.2", "v2", "v1.2.3+build.5",
 	"", "a", "name", "my-project", "a b", "a.b", "a=b", "#x", "[x]", "'", "''", "'''", "\"", "\"\"", "\"\"\"", "\\", "\\n", "\n", "\r", "\r\n", "\t",
 	"\x00", "\x7f", "\x1b", " ", " ", "é", "世界", "\U0001F600", "é", "\ufeff", "true", "false", "1", "1.5", "-", "_", "a-b_c9",
 	"inf", "nan", "{}", "{a = 1}", "a, b", "x = {path = \"p\", version = \"v1.0.0\"}", " lead", "trail ", " ", "A", "ключ", "0x10", "1979-05-27",
@@ -144,8 +145,12 @@ func runC19(c *core.Ctx) {
 		if r.IntN(5) != 0 {
 			cfg.Name = c19String(r)
 		}
-		if r.IntN(3) == 0 {
+		switch r.IntN(6) {
+		case 0, 1:
 			cfg.Version = c19Version(r)
+		case 2:
+			// the project's own version is free-form: short forms and build metadata must survive
+			cfg.Version = []string{"v1.2", "v2", "v1.2.3+build.5", "v1.0.0-rc.1+meta", "1.2.3", "v01.2.3", "V1.2.3", "v1.2.3 ", "latest"}[r.IntN(9)]
 		}
 		for k := r.IntN(4); k > 0 && r.IntN(2) == 0; k-- {
 			cfg.Ignore = append(cfg.Ignore, c19String(r))
